@@ -187,6 +187,10 @@ def main(argv=None):
         print("ANALYSIS-ERROR property=%s reason=internal error: %s" % (prop, tb.replace("\n", " | ")[-1500:]))
         return 2
 
+    und = getattr(ctx, "undecided", [])
+    if und and not any(i.verdict == "violation" for i in ctx.instances):
+        print("ANALYSIS-ERROR property=%s reason=%s" % (prop, ("%d site(s) cannot be decided: " % len(und)) + " ;; ".join(und)[:1400]))
+        return 2
     unmet = [(r, w, m, mn) for (r, w, m, mn) in ctx.floors if m < mn]
     if unmet and not any(i.verdict == "violation" for i in ctx.instances):
         r, w, m, mn = unmet[0]
